@@ -321,7 +321,12 @@ Script ==
     << [op |-> "reset", sid |-> "MC_Writer"] >> \o CallOps \o WrapOps
     \o << [op |-> "calc_size"], [op |-> "get_padding"],
           [op |-> "write_into", rel |-> -1, len |-> 3, fill |-> 1],
-          [op |-> "write_twice", rel |-> 2, len |-> 64] >>
+          [op |-> "write_twice", rel |-> 2, len |-> 64],
+          \* write_into_unchecked into exactly n bytes while the builder of the previous history step is sized in between
+          [op |-> "write_unchecked", fill |-> 1,
+           decoy |-> [kind |-> kind, calls |-> IF Len(h) >= 2 THEN SubSeq(h, 1, Len(h) - 1) ELSE h]],
+          \* ... and a write over a buffer that still holds the image just written
+          [op |-> "write_into", rel |-> 1, len |-> 64, fill |-> 4] >>
     \o ParseOps
 
 Emit == HasCfg => PrintT(<< "REPLAY", ToJson(Script) >>)
